@@ -20,6 +20,9 @@ pub struct P(pub u32);
 pub struct S(pub u32);
 #[derive(Component, Serialize, Deserialize, Clone, PartialEq, Debug)]
 pub struct R(#[entities] pub Entity);
+/// A zero-sized component: its serialized form is empty (zero-length ranges in the change bookkeeping).
+#[derive(Component, Serialize, Deserialize, Clone, PartialEq, Debug)]
+pub struct Z;
 /// A second relationship next to `ChildOf` (no forest constraint, no recursive despawn): with `Cfg::sync` both are registered
 /// for synchronized replication, so groups are the connected components of the union of both graphs.
 #[derive(Component, Serialize, Deserialize, Clone, PartialEq, Debug)]
@@ -48,8 +51,10 @@ pub enum K {
     /// the two parts of the bundle rule (only with `Cfg::bundle`)
     X,
     Y,
+    /// zero-sized
+    Z,
 }
-pub const KS: [K; 6] = [K::A, K::B, K::C, K::O, K::P, K::S];
+pub const KS: [K; 7] = [K::A, K::B, K::C, K::O, K::P, K::S, K::Z];
 
 // ---- server -> client events
 #[derive(Event, Serialize, Deserialize, Clone, Debug, MapEntities)]
